@@ -49,3 +49,181 @@ pub proof fn lemma_hi_carry2(hi1: int, hi0: int, cin: int, cout: int, p: int)
 {
     lemma_hi_carry_p(hi1, hi0, cin, cout, p, B() * B());
 }
+
+// ---- lemmas for sub_in_place_with_sign ----------------------------------------------------------------------
+
+pub proof fn lemma_pw_mono(a: int, b: int)
+    requires 0 <= a <= b,
+    ensures pw(a) <= pw(b),
+    decreases b
+{
+    if a < b {
+        lemma_pw_mono(a, b - 1);
+        lemma_pw_pos(b - 1);
+        assert(B() * pw(b - 1) >= pw(b - 1)) by (nonlinear_arith) requires pw(b - 1) >= 1, B() >= 1;
+    }
+}
+
+/// a sequence whose top word (index n-1) is non-zero is at least pw(n-1)
+pub proof fn lemma_valn_top(s: Seq<Word>, n: int)
+    requires 1 <= n <= s.len(),
+    ensures valn(s, n) >= (s[n - 1] as int) * pw(n - 1), valn(s, n) < (s[n - 1] as int + 1) * pw(n - 1),
+        s[n - 1] != 0 ==> valn(s, n) >= pw(n - 1),
+{
+    lemma_valn_bound(s, n - 1);
+    lemma_pw_pos(n - 1);
+    assert((s[n - 1] as int + 1) * pw(n - 1) == (s[n - 1] as int) * pw(n - 1) + pw(n - 1)) by (nonlinear_arith);
+    if s[n - 1] != 0 {
+        assert((s[n - 1] as int) * pw(n - 1) >= pw(n - 1)) by (nonlinear_arith)
+            requires s[n - 1] as int >= 1, pw(n - 1) >= 1;
+    }
+}
+
+pub proof fn lemma_val_prefix(s: Seq<Word>, n: int)
+    requires 0 <= n <= s.len(),
+    ensures val(s.subrange(0, n)) == valn(s, n),
+{
+    lemma_valn_ext(s, s.subrange(0, n), n);
+}
+
+pub proof fn lemma_swsg_greater_pre(lhs: Seq<Word>, rhs: Seq<Word>, l: int, r: int)
+    requires 0 <= r < l <= lhs.len(), r <= rhs.len(), lhs[l - 1] != 0,
+    ensures valn(lhs, l) > valn(rhs, r),
+{
+    lemma_valn_top(lhs, l);
+    lemma_valn_bound(rhs, r);
+    lemma_pw_mono(r, l - 1);
+}
+
+pub proof fn lemma_swsg_greater_post(lhs0: Seq<Word>, lhs1: Seq<Word>, rhs: Seq<Word>, l: int, r: int, ov: int)
+    requires 0 <= r < l <= lhs0.len(), r <= rhs.len(), lhs0.len() == lhs1.len(),
+        valn(lhs0, l) > valn(rhs, r),
+        val(lhs0) == valn(lhs0, l), val(rhs) == valn(rhs, r),
+        forall|j: int| l <= j < lhs0.len() ==> lhs1[j] == lhs0[j],
+        forall|j: int| l <= j < lhs0.len() ==> lhs0[j] == 0,
+        0 <= ov <= 1,
+        val(lhs1.subrange(0, l)) - ov * pw(l) == val(lhs0.subrange(0, l)) - val(rhs.subrange(0, r)),
+    ensures ov == 0, val(lhs1) == val(lhs0) - val(rhs),
+{
+    lemma_val_prefix(lhs1, l);
+    lemma_val_prefix(lhs0, l);
+    lemma_val_prefix(rhs, r);
+    lemma_valn_bound(lhs1, l);
+    lemma_valn_zero(lhs1, l, lhs1.len() as int);
+    if ov == 1 {
+        assert(ov * pw(l) == pw(l)) by (nonlinear_arith) requires ov == 1;
+        assert(false);
+    }
+    assert(ov * pw(l) == 0) by (nonlinear_arith) requires ov == 0;
+}
+
+pub proof fn lemma_swsg_less_mid(rhs: Seq<Word>, l: int, r: int)
+    requires 0 <= l < r <= rhs.len(), rhs[r - 1] != 0,
+    ensures val(rhs.subrange(l, r)) >= 1,
+{
+    let m = rhs.subrange(l, r);
+    lemma_valn_top(m, r - l);
+    lemma_pw_pos(r - l - 1);
+}
+
+pub proof fn lemma_swsg_less_post(lhs0: Seq<Word>, lhs1: Seq<Word>, lhs3: Seq<Word>, rhs: Seq<Word>, l: int, r: int, bw: int)
+    requires 0 <= l < r <= rhs.len(), rhs.len() <= lhs0.len(), lhs0.len() == lhs1.len(), lhs1.len() == lhs3.len(),
+        val(lhs0) == valn(lhs0, l), val(rhs) == valn(rhs, r),
+        forall|j: int| l <= j < lhs0.len() ==> lhs0[j] == 0,
+        0 <= bw <= 1,
+        val(lhs1.subrange(0, l)) - bw * pw(l) == val(rhs.subrange(0, l)) - val(lhs0.subrange(0, l)),
+        forall|j: int| 0 <= j < l ==> lhs3[j] == lhs1[j],
+        forall|j: int| r <= j < lhs0.len() ==> lhs3[j] == 0,
+        val(lhs3.subrange(l, r)) == val(rhs.subrange(l, r)) - bw,
+    ensures -val(lhs3) == val(lhs0) - val(rhs),
+{
+    lemma_val_prefix(lhs1, l);
+    lemma_val_prefix(lhs0, l);
+    lemma_val_prefix(rhs, l);
+    lemma_valn_ext(lhs1, lhs3, l);
+    lemma_valn_zero(lhs3, r, lhs3.len() as int);
+    // val(lhs3) = valn(lhs3, l) + pw(l) * val(lhs3[l..r])
+    lemma_valn_split(lhs3, l, r);
+    lemma_valn_split(rhs, l, r);
+    let m3 = lhs3.subrange(l, lhs3.len() as int);
+    let mr = rhs.subrange(l, rhs.len() as int);
+    lemma_valn_ext(m3, lhs3.subrange(l, r), r - l);
+    lemma_valn_ext(mr, rhs.subrange(l, r), r - l);
+    assert(pw(l) * (val(rhs.subrange(l, r)) - bw) == pw(l) * val(rhs.subrange(l, r)) - bw * pw(l)) by (nonlinear_arith);
+}
+
+pub proof fn lemma_swsg_equal_post(lhs0: Seq<Word>, lhs1: Seq<Word>, lhs2: Seq<Word>, rhs: Seq<Word>, n: int, l: int, ov: int)
+    requires 1 <= n <= l, l <= rhs.len(), rhs.len() <= lhs0.len(), lhs0.len() == lhs1.len(), lhs1.len() == lhs2.len(),
+        val(lhs0) == valn(lhs0, l), val(rhs) == valn(rhs, l),
+        forall|j: int| 0 <= j < n ==> lhs1[j] == lhs0[j],
+        forall|j: int| n <= j < l ==> lhs1[j] == 0,
+        forall|j: int| n <= j < l ==> lhs0[j] == rhs[j],
+        forall|j: int| l <= j < lhs0.len() ==> lhs1[j] == 0,
+        forall|j: int| n <= j < lhs0.len() ==> lhs2[j] == lhs1[j],
+        lhs0[n - 1] > rhs[n - 1],
+        0 <= ov <= 1,
+        val(lhs2.subrange(0, n)) - ov * pw(n) == val(lhs1.subrange(0, n)) - val(rhs.subrange(0, n)),
+    ensures ov == 0, val(lhs2) == val(lhs0) - val(rhs), val(lhs0) != val(rhs),
+{
+    lemma_val_prefix(lhs2, n);
+    lemma_val_prefix(lhs1, n);
+    lemma_val_prefix(rhs, n);
+    lemma_valn_ext(lhs1, lhs0, n);
+    lemma_valn_tail(rhs, lhs0, n, l);
+    lemma_valn_zero(lhs2, n, lhs2.len() as int);
+    lemma_valn_bound(lhs2, n);
+    lemma_valn_top(lhs0, n);
+    lemma_valn_top(rhs, n);
+    lemma_pw_pos(n - 1);
+    assert((lhs0[n - 1] as int) * pw(n - 1) >= (rhs[n - 1] as int + 1) * pw(n - 1)) by (nonlinear_arith)
+        requires lhs0[n - 1] as int >= rhs[n - 1] as int + 1, pw(n - 1) >= 1;
+    if ov == 1 {
+        assert(ov * pw(n) == pw(n)) by (nonlinear_arith) requires ov == 1;
+        assert(false);
+    }
+    assert(ov * pw(n) == 0) by (nonlinear_arith) requires ov == 0;
+}
+
+pub proof fn lemma_swsg_equal_post_swap(lhs0: Seq<Word>, lhs1: Seq<Word>, lhs2: Seq<Word>, rhs: Seq<Word>, n: int, l: int, ov: int)
+    requires 1 <= n <= l, l <= rhs.len(), rhs.len() <= lhs0.len(), lhs0.len() == lhs1.len(), lhs1.len() == lhs2.len(),
+        val(lhs0) == valn(lhs0, l), val(rhs) == valn(rhs, l),
+        forall|j: int| 0 <= j < n ==> lhs1[j] == lhs0[j],
+        forall|j: int| n <= j < l ==> lhs1[j] == 0,
+        forall|j: int| n <= j < l ==> lhs0[j] == rhs[j],
+        forall|j: int| l <= j < lhs0.len() ==> lhs1[j] == 0,
+        forall|j: int| n <= j < lhs0.len() ==> lhs2[j] == lhs1[j],
+        lhs0[n - 1] < rhs[n - 1],
+        0 <= ov <= 1,
+        val(lhs2.subrange(0, n)) - ov * pw(n) == val(rhs.subrange(0, n)) - val(lhs1.subrange(0, n)),
+    ensures ov == 0, -val(lhs2) == val(lhs0) - val(rhs), val(lhs0) != val(rhs),
+{
+    lemma_val_prefix(lhs2, n);
+    lemma_val_prefix(lhs1, n);
+    lemma_val_prefix(rhs, n);
+    lemma_valn_ext(lhs1, lhs0, n);
+    lemma_valn_tail(rhs, lhs0, n, l);
+    lemma_valn_zero(lhs2, n, lhs2.len() as int);
+    lemma_valn_bound(lhs2, n);
+    lemma_valn_top(lhs0, n);
+    lemma_valn_top(rhs, n);
+    lemma_pw_pos(n - 1);
+    assert((rhs[n - 1] as int) * pw(n - 1) >= (lhs0[n - 1] as int + 1) * pw(n - 1)) by (nonlinear_arith)
+        requires rhs[n - 1] as int >= lhs0[n - 1] as int + 1, pw(n - 1) >= 1;
+    if ov == 1 {
+        assert(ov * pw(n) == pw(n)) by (nonlinear_arith) requires ov == 1;
+        assert(false);
+    }
+    assert(ov * pw(n) == 0) by (nonlinear_arith) requires ov == 0;
+}
+
+pub proof fn lemma_swsg_equal_zero(lhs0: Seq<Word>, lhs1: Seq<Word>, rhs: Seq<Word>, l: int)
+    requires 0 <= l <= rhs.len(), rhs.len() <= lhs0.len(), lhs0.len() == lhs1.len(),
+        val(lhs0) == valn(lhs0, l), val(rhs) == valn(rhs, l),
+        forall|j: int| 0 <= j < l ==> lhs1[j] == 0,
+        forall|j: int| 0 <= j < l ==> lhs0[j] == rhs[j],
+        forall|j: int| l <= j < lhs0.len() ==> lhs1[j] == 0,
+    ensures val(lhs1) == 0, val(lhs0) == val(rhs),
+{
+    lemma_valn_zero(lhs1, 0, lhs1.len() as int);
+    lemma_valn_ext(lhs0, rhs, l);
+}
